@@ -23,7 +23,7 @@ REAL_VS_STUB = {
 
 SDE = 1234567890
 SDE_CHOICES = ["1234567890", "0", "1", "2147483647", "1700000000", "00", "12abc", "abc"]
-OPTS = ["-string", "-fnames", "-unique-names", "-promiscuous", "-nomangle", "-do-module", "-true-names", "-refcount", "-assert"]
+OPTS = ["-string", "-fnames", "-unique-names", "-promiscuous", "-nomangle", "-do-module", "-true-names", "-refcount", "-assert", "-track-interpreter", "-spam", "-fptrs"]
 LOCALES = [None, "C", "POSIX", "C.UTF-8", "de_DE.UTF-8", "tr_TR.UTF-8"]
 TZS = [None, "UTC", "Asia/Tokyo", "America/New_York", ":/nonexistent"]
 ID_LINE = re.compile(rb"^  (-?\d+),  /\* file_identifier \*/$", re.M)
@@ -68,7 +68,7 @@ def job_from_spec(spec):
         for l in ("a", "b", "c"):
             steps.append((l, common.igate_job(l, libs[l]["files"], libs[l]["main"], be, opts=opts, srcdir=libs[l]["srcdir"], incs=libs[l]["incs"])))
         mod = {"name": "mod", "tool": "interrogate_module", "files": {},
-               "argv": ["-oc", "out-oc/mod_module.cxx", "-module", "m", "-library", "m", be if be != "-c" else "-python",
+               "argv": ["-oc", "out-oc/mod_module.cxx", "-module", "m", "-library", "m", be if be in ("-python", "-python-native") else "-python",
                         "out-od/libc.in", "out-od/liba.in", "out-od/libb.in"],
                "outputs": {"oc": "out-oc/mod_module.cxx"}}
         steps.append(("mod", mod))
